@@ -1658,6 +1658,19 @@ func parseOpenSSHPrivateKey(key []byte, decrypt openSSHDecryptFunc) (crypto.Priv
 		return nil, errors.New("ssh: malformed OpenSSH key")
 	}
 
+	// checkPub requires the public key stored outside the private section
+	// to be the public key of the parsed private key.
+	checkPub := func(priv crypto.PrivateKey, pub crypto.PublicKey) (crypto.PrivateKey, error) {
+		sshPub, err := NewPublicKey(pub)
+		if err != nil {
+			return nil, err
+		}
+		if !bytes.Equal(sshPub.Marshal(), w.PubKey) {
+			return nil, errors.New("ssh: public key does not match private key")
+		}
+		return priv, nil
+	}
+
 	switch pk1.Keytype {
 	case KeyAlgoRSA:
 		var key openSSHRSAPrivateKey
@@ -1702,7 +1715,7 @@ func parseOpenSSHPrivateKey(key []byte, decrypt openSSHDecryptFunc) (crypto.Priv
 
 		pk.Precompute()
 
-		return pk, nil
+		return checkPub(pk, &pk.PublicKey)
 	case KeyAlgoED25519:
 		var key openSSHEd25519PrivateKey
 		if err := Unmarshal(pk1.Rest, &key); err != nil {
@@ -1721,7 +1734,7 @@ func parseOpenSSHPrivateKey(key []byte, decrypt openSSHDecryptFunc) (crypto.Priv
 		if !bytes.Equal(pk, key.Priv) || !bytes.Equal(key.Pub, key.Priv[ed25519.SeedSize:]) {
 			return nil, errors.New("ssh: public key does not match private key")
 		}
-		return &pk, nil
+		return checkPub(&pk, pk.Public())
 	case KeyAlgoECDSA256, KeyAlgoECDSA384, KeyAlgoECDSA521:
 		var key openSSHECDSAPrivateKey
 		if err := Unmarshal(pk1.Rest, &key); err != nil {
@@ -1758,14 +1771,15 @@ func parseOpenSSHPrivateKey(key []byte, decrypt openSSHDecryptFunc) (crypto.Priv
 			return nil, errors.New("ssh: public key does not match private key")
 		}
 
-		return &ecdsa.PrivateKey{
+		ecKey := &ecdsa.PrivateKey{
 			PublicKey: ecdsa.PublicKey{
 				Curve: curve,
 				X:     X,
 				Y:     Y,
 			},
 			D: key.D,
-		}, nil
+		}
+		return checkPub(ecKey, &ecKey.PublicKey)
 	default:
 		return nil, errors.New("ssh: unhandled key type")
 	}
